@@ -1,6 +1,7 @@
 package c09
 
 import (
+	"bytes"
 	"crypto/ecdsa"
 	"encoding/json"
 	"fmt"
@@ -136,10 +137,12 @@ func fuzzSetup() {
 	})
 }
 
-// FuzzJWTVerify: input (algSel, token). The low 7 bits of algSel select the key (algorithm x kid
-// strategy, modulo 45) and the validator variant; when the high bit is set the part behind the last
-// dot is replaced by a genuine reference signature over what is in front of it, so that the search
-// reaches the header / payload / validator logic behind the signature check.
+// FuzzJWTVerify: input (algSel, valSel, token). The low 7 bits of algSel select the key (algorithm x
+// kid strategy, modulo 45), valSel the validator variant (modulo 3) - a byte of its own, so that every
+// key meets every variant (with both in the 7 bits of one byte, 45 x 3 = 135 > 128 left keys 38..44
+// without variant 2); when the high bit of algSel is set the part behind the last dot is replaced by a
+// genuine reference signature over what is in front of it, so that the search reaches the header /
+// payload / validator logic behind the signature check.
 // Oracle: no panic; robustness oracle on every acceptance; and for tokens in the strict grammar
 // Tink's decision equals the reference decision with equal claims.
 func FuzzJWTVerify(f *testing.F) {
@@ -155,9 +158,7 @@ func FuzzJWTVerify(f *testing.F) {
 		jwtTyp := sptr("JWT")
 		good := goodHeader(k, nil)
 		add := func(vi int, header, payload string) {
-			if sel := i + 45*vi; sel < 128 {
-				f.Add(uint8(sel)|0x80, enc(header)+"."+enc(payload)+".")
-			}
+			f.Add(uint8(i)|0x80, uint8(vi), enc(header)+"."+enc(payload)+".")
 		}
 		// a complete token with its signature in place
 		unsigned := enc(object(good)) + "." + enc(`{"custom":[1,"a",null,{"b":true}]}`)
@@ -165,17 +166,23 @@ func FuzzJWTVerify(f *testing.F) {
 		if err != nil {
 			f.Fatal(err)
 		}
-		f.Add(uint8(i), unsigned+"."+jwtref.B64Encode(sig))
+		f.Add(uint8(i), uint8(i%3), unsigned+"."+jwtref.B64Encode(sig))
 		add(0, object(good), `{}`)
-		add(1, object(goodHeader(k, jwtTyp)), full)                                                        // nbf and iat exactly at now+skew
+		add(1, object(goodHeader(k, jwtTyp)), full)                                                             // nbf and iat exactly at now+skew
 		add(1, object(goodHeader(k, jwtTyp)), strings.Replace(full, `"nbf":1700000060`, `"nbf":1700000061`, 1)) // one second too late
 		add(1, object(goodHeader(k, jwtTyp)), strings.Replace(full, `"exp":1700000030`, `"exp":1699999940`, 1)) // exp exactly at now-skew
 		add(1, object(goodHeader(k, jwtTyp)), strings.Replace(full, `"exp":1700000030`, `"exp":1699999941`, 1))
-		add(1, object(good), full)                                                                              // typ expected but absent
-		add(1, object(goodHeader(k, jwtTyp)), strings.Replace(full, `"aud":["other","me"],`, ``, 1))         // aud expected but absent
+		add(1, object(good), full)                                                                            // typ expected but absent
+		add(1, object(goodHeader(k, jwtTyp)), strings.Replace(full, `"aud":["other","me"],`, ``, 1))          // aud expected but absent
 		add(1, object(goodHeader(k, jwtTyp)), strings.Replace(full, `"aud":["other","me"]`, `"aud":"me"`, 1)) // single string audience
-		add(2, object(good), `{"exp":1700000000}`) // expired exactly now
+		add(2, object(good), `{"exp":1700000000}`)                                                            // expired exactly now
 		add(2, object(good), `{"exp":1700000001}`)
+		// variant 2 is the only one with "present but not expected" rules: one token per rule
+		add(2, object(goodHeader(k, jwtTyp)), `{"exp":1700000001}`)
+		add(2, object(goodHeader(k, sptr("x"))), `{"exp":1700000001}`)
+		add(2, object(good), `{"exp":1700000001,"iss":"issuer"}`)
+		add(2, object(good), `{"exp":1700000001,"aud":"me"}`)
+		add(2, object(good), `{"exp":1700000001,"iat":1700000061,"nbf":1700000000}`)
 		add(0, object(append(append([]member{}, good...), member{"crit", `["exp"]`})), `{}`)
 		add(0, object(replaceMember(good, "kid", "")), `{}`)
 		add(0, object(replaceMember(good, "kid", `"wrong"`)), `{}`)
@@ -196,22 +203,21 @@ func FuzzJWTVerify(f *testing.F) {
 			for len(h)%3 == 0 {
 				h += " "
 			}
-			f.Add(uint8(sel)|0x80, enc(h)+strings.Repeat("=", 4-len(enc(h))%4)+"."+enc(`{}`)+".")
-			f.Add(uint8(sel)|0x80, enc(object(good))+"\n."+enc(`{}`)+".")
-			f.Add(uint8(sel)|0x80, strings.NewReplacer("-", "+", "_", "/").Replace(enc(object(append(append([]member{}, good...), member{"q", `"??????"`}))))+"."+enc(`{}`)+".")
-			f.Add(uint8(sel)|0x80, enc(object(good))+"."+enc(`{}`)+".x.")
+			f.Add(uint8(sel)|0x80, uint8(0), enc(h)+strings.Repeat("=", 4-len(enc(h))%4)+"."+enc(`{}`)+".")
+			f.Add(uint8(sel)|0x80, uint8(0), enc(object(good))+"\n."+enc(`{}`)+".")
+			f.Add(uint8(sel)|0x80, uint8(0), strings.NewReplacer("-", "+", "_", "/").Replace(enc(object(append(append([]member{}, good...), member{"q", `"??????"`}))))+"."+enc(`{}`)+".")
+			f.Add(uint8(sel)|0x80, uint8(0), enc(object(good))+"."+enc(`{}`)+".x.")
 		}
 	}
 	// ... and structural constants
 	for _, c := range []string{"", ".", "..", "...", "a.b.c", "e30.e30.", "e30.e30.AA"} {
 		for _, sel := range []uint8{0, 0x80, 0x80 | 9, 0x80 | 18, 0x80 | 27, 0x80 | 36} {
-			f.Add(sel, c)
+			f.Add(sel, sel%3, c)
 		}
 	}
-	f.Fuzz(func(t *testing.T, algSel uint8, token string) {
-		sel := int(algSel & 0x7f)
-		fp := fuzzParties[sel%45]
-		v := vals[(sel/45)%len(vals)]
+	f.Fuzz(func(t *testing.T, algSel, valSel uint8, token string) {
+		fp := fuzzParties[int(algSel&0x7f)%len(fuzzParties)]
+		v := vals[int(valSel)%len(vals)]
 		if algSel&0x80 != 0 {
 			unsigned := token
 			if i := strings.LastIndex(token, "."); i >= 0 {
@@ -245,6 +251,7 @@ func FuzzJWTVerify(f *testing.F) {
 				t.Fatalf("%s\nACCEPTED a token whose signature is not valid under the key", ctx)
 			}
 			payload, _, derr := jwtref.B64Decode(strings.Split(token, ".")[1])
+			payload = bytes.TrimPrefix(payload, []byte("\xef\xbb\xbf")) // RFC 8259 section 8.1: a parser may skip it
 			var signed, returned any
 			if derr != nil || json.Unmarshal(payload, &signed) != nil {
 				t.Fatalf("%s\nACCEPTED a token whose payload is not base64url JSON", ctx)
